@@ -36,6 +36,34 @@ template <size_t D, size_t B> static void ndmap_h()
     vf_observe_u64(count);
 }
 
+// for ALL extent vectors with every extent >= 1 (unbounded, 64-bit): the walk starts, and it starts at the origin.
+// The callback leaves the walk by throwing, so boxes of any size are explored without iterating over them.
+struct stop_walk {};
+template <size_t D> static void ndmap_first_h()
+{
+    using T = utility::nd_size<D>;
+    T e;
+    for (size_t k = 0; k < D; k++) {
+        e[k] = vf_nondet_u64();
+        vf_assume(e[k] >= 1);
+    }
+    bool called = false, origin = true;
+    try {
+        utility::nd_map<T>(
+            [&called, &origin](T t) {
+                called = true;
+                for (size_t k = 0; k < D; k++) origin = origin && t[k] == 0;
+                throw stop_walk{};
+            },
+            e
+        );
+    } catch (...) {
+    }
+    vf_assert(called, 1);        // a non-empty box is never skipped
+    vf_assert(origin, 2);        // and the first tuple is the origin
+    vf_observe_u64(called);
+}
+
 extern "C" void vf_main()
 {
     VF_INST;
